@@ -67,6 +67,10 @@ TABLE = {
    text='clusters of 2-4 real Server/AsyncServer objects with real PubSubManager/AsyncPubSubManager instances joined by an in-memory pickle channel (their real listener threads/tasks consume one message at a time under harness control) plus a write-only manager; generated histories of connects, room operations, emits (with skip_sid / callbacks) and disconnects issued via arbitrary hosts; immediate mode: exact recipient multiset per emit against the single-server rooms model, rooms(), disconnect handler once, callback once on the issuing host; delayed mode with random per-host lag: at-most-once, eligibility within the flight window (extended over membership operations that are themselves in flight) and exactness for emits not raced',
    note='FIFO reliable channel; delayed mode issues a membership operation only when no membership message is in flight (crossing operations are order-dependent for any implementation); callbacks only for emits addressed to the client\'s own sid',
    tech='runtime monitoring: history + single-server reference model over the union of clients, logical-time flight windows'),
+ 'C20': dict(cat='exploration',
+   text='the real threaded Server with real threads under a controlled scheduler (one thread runs at a time): bounded-exhaustive DFS over all schedules of every pair of the four terminating causes with pre-emption at each client-manager / engine.io call and inside the disconnect handler (pre-emption-bounded for triples), plus seeded random schedules with statement-level yield points injected through sys.monitoring LINE events in server.py, base_manager.py and manager.py; per schedule: disconnect handler exactly once, no exception in any thread or engine.io log, no API-level residue and object-graph size equal to the clean baseline',
+   note='interleavings inside a single bytecode instruction are not explored; DFS is capped per pair in the quick tier (completeness per pair is reported in evidence); locks of the manager are replaced by scheduler-aware ones',
+   tech='runtime monitoring: controlled thread scheduler (systematic + randomized schedule exploration) with exactly-once / escape / residue monitors'),
 }
 # filled in as checks are built; see bottom of file for the not-built reason
 
